@@ -305,7 +305,21 @@ def run(R):
             if any('decompress' in show(tm) and 'discr(' in show(tm) and vals == [1] for s, vals, tm in gs):
                 hit = True
                 R.check(is_call(strip_refs(dc.origin(ops[0])), pat='Status::internal'), 'C07.R3', 'decompress-err-internal', site(dc, bb, i), 'status = %s' % show(dc.origin(ops[0]))[:100])
-        R.check(hit, 'C07.R3', 'decompress-err-handled', site(dc, db), 'an Err return guarded by decompress(..) == Err exists')
+        if not hit:
+            # the `?` spelling: decompress(..).map_err(|e| Status::internal(..))?
+            for mb_, mt_ in dc.calls(name='map_err'):
+                if not is_call(strip_refs(dc.origin(mt_['args'][0])), pat='compression::decompress'):
+                    continue
+                clo = strip_refs(dc.origin(mt_['args'][1]))
+                if clo[0] == 'agg' and 'def' in clo[1]:
+                    cbd = tonic.body(re.compile('^' + re.escape(clo[1]['def']) + '$'))
+                    R.saw(cbd)
+                    rts = mirlib.returned_terms(cbd)
+                    okm = bool(rts) and all(is_call(strip_refs(t_), pat='Status::internal') for _, t_ in rts)
+                    br = [x for x, t_ in dc.calls(name='branch') if term_contains(dc.origin(t_['args'][0]), lambda y: y and y[0] == 'call' and len(y) > 4 and y[4] is mt_)]
+                    hit = okm and bool(br)
+                    R.check(okm, 'C07.R3', 'decompress-err-internal', site(cbd), 'map_err closure returns %s' % [show(t_)[:80] for _, t_ in rts])
+        R.check(hit, 'C07.R3', 'decompress-err-handled', site(dc, db), 'the Err of decompress(..) becomes an Err(Status::internal) return (matched, or map_err + ?)')
         pd = tonic.body(re.compile(r'ProstDecoder<U> as .*Decoder>::decode$'))
         R.saw(pd)
         me = pd.calls(name='map_err')
@@ -322,7 +336,18 @@ def run(R):
         R.check(len(resets) == 1, 'C07.R3', 'reset-once', site(sd), 'assignments to the state in Streaming::decode_chunk: %d' % len(resets))
         for bb, i in resets:
             gs = sd.edge_guards(bb)
-            R.check(any('decode(' in show(tm) and 'discr(' in show(tm) and vals == [1] for s, vals, tm in gs), 'C07.R3', 'reset-on-some-msg', site(sd, bb, i),
+            def some_msg(tm, vals):
+                t_ = strip_refs(tm)
+                if not term_contains(t_, lambda x: is_call(x, name='decode')):
+                    return False
+                if t_[0] == 'discr':
+                    return vals == [1]
+                if is_call(t_, name='is_some'):
+                    return vals == ['else'] or 0 not in vals
+                if is_call(t_, name='is_none'):
+                    return vals == [0]
+                return False
+            R.check(any(some_msg(tm, vals) for s, vals, tm in gs), 'C07.R3', 'reset-on-some-msg', site(sd, bb, i),
                     'guards: %r' % [(v, show(tm)[:80]) for s, v, tm in gs])
 
 
@@ -402,7 +427,10 @@ def discharge(tonic, b, bb, kind, what, t, dc):
         return False, 'unwrap of %s' % show(recv)[:100]
     # (d) the dead "unexpected frame" arm: exactly one named exception
     if kind == 'panic' and b.path.endswith('StreamingInner::poll_frame'):
-        okg = any(is_call(strip_refs(tm), name='is_data') and vals == [0] for s, vals, tm in gs) and any(is_call(strip_refs(tm), name='is_trailers') and vals == [0] for s, vals, tm in gs)
+        def not_kind(nm):
+            # is_<kind>() false, or into_<kind>() returned Err(frame)
+            return any((is_call(strip_refs(tm), name='is_' + nm) and vals == [0]) or (tm[0] == 'discr' and is_call(strip_refs(tm[1]), name='into_' + nm) and vals == [1]) for s, vals, tm in gs)
+        okg = not_kind('data') and not_kind('trailers')
         return okg, 'named exception: panic!("unexpected frame") is reached only when a frame is neither data nor trailers (impossible for http-body 1.x frames): guards %r' % gtxt
     # (c) slice index / advance(len) in decompress: len is bounded at the unique call site
     if b.path.endswith('compression::decompress') and (kind == 'index' or (kind == 'buf' and 'advance' in what)):
